@@ -442,8 +442,11 @@ def run_check(prop: str, tier: str, seed: int, replay: str | None = None) -> int
         },
         "assumptions": list(getattr(mod, "ASSUMPTIONS", [])),
     }
-    (VERIF / "evidence").mkdir(exist_ok=True)
-    (VERIF / "evidence" / f"{prop}.json").write_text(json.dumps(evidence, indent=1, default=str))
+    # committed evidence comes from runs against /repo itself; a development run against a scratch copy
+    # (STABILIZE_REPO=...) writes next to the replays instead
+    edir = VERIF / "evidence" if os.path.realpath(os.environ.get("STABILIZE_REPO", "/repo")) == "/repo" else VERIF / "out" / "evidence-dev"
+    edir.mkdir(parents=True, exist_ok=True)
+    (edir / f"{prop}.json").write_text(json.dumps(evidence, indent=1, default=str))
 
     if ctx.driver_path != DRIVER:
         shutil.rmtree(ctx.driver_path.parent, ignore_errors=True)
